@@ -785,6 +785,16 @@ func (vc *VC) oblQuery(o *Obl) string {
 						}
 					}
 				}
+				if t.Op == "to_real" && len(t.Args) == 1 && t.Args[0].S.K == KInt {
+					// an integer the goal converts to a real (a cell index such as i/2): quantified hypotheses over
+					// cell coordinates are instantiated there
+					c := t.Args[0]
+					k := c.String()
+					if _, isLit := intLitVal(c); !isLit && !isSk[c.Op] && !seen[k] && len(extra) < 10 && len(k) < 300 {
+						seen[k] = true
+						extra = append(extra, c)
+					}
+				}
 				for _, a := range t.Args {
 					idx(a)
 				}
